@@ -281,7 +281,7 @@ def subsets_of(keys, r, thorough):
     allsub = [list(c) for n in range(1, len(keys) + 1) for c in itertools.combinations(keys, n)]
     singles = [s for s in allsub if len(s) == 1]
     rest = [s for s in allsub if len(s) > 1]
-    k = len(rest) if (thorough and len(rest) <= 64) else min(len(rest), 40 if thorough else 3)
+    k = min(len(rest), 10 if thorough else 3)
     return singles + r.sample(rest, k)
 
 
@@ -714,7 +714,7 @@ def roundtrips(cx, A, x, c0, wdir, r, thorough):
     other = os.path.join(wdir, kind + "_elsewhere")
     os.makedirs(fdir, exist_ok=True)
     os.makedirs(other, exist_ok=True)
-    path = os.path.join(fdir, r.choice(["obj.json", "modèle.json", "x"]))
+    path = os.path.join(fdir, r.choice(["obj.json", "model v2.json", "x"]))
     saved = False
     if kind == "script":
         if "save_rdscript-raises" not in cx.skip:
@@ -1119,7 +1119,7 @@ def trajectory_checks(cx, st, tr, wdir, r, tag):
     os.makedirs(fdir, exist_ok=True)
     os.makedirs(other, exist_ok=True)
     for separate in (True, False):
-        name = r.choice(["traj", "traj.json", "out π"]) + ("_s" if separate else "_i")
+        name = r.choice(["traj", "traj.json", "out 2"]) + ("_s" if separate else "_i")
         path = os.path.join(fdir, name)
         jpath = path if path.endswith(".json") else path + ".json"
         try:
@@ -1372,9 +1372,10 @@ def main():
             continue
         v = r_["value"]
         for o in v["objects"]:
-            smp = o["sample"] if per_kind_samples.get(o["kind"], 0) < 2 and o["nontrivial"] else None
+            sk = (o["kind"], o["sample"].get("built"))
+            smp = o["sample"] if per_kind_samples.get(sk, 0) < 1 and o["nontrivial"] else None
             if run.case(o["key"], nontrivial=o["nontrivial"], sample=smp) and smp is not None:
-                per_kind_samples[o["kind"]] = per_kind_samples.get(o["kind"], 0) + 1
+                per_kind_samples[sk] = per_kind_samples.get(sk, 0) + 1
         for k, n in v["counts"].items():
             run.count(k, n)
         if v["notes"].get("engine_error"):
